@@ -97,6 +97,10 @@ class ContainerBase:
     def mk_copy(self, copy_node: bool = False) -> ContainerBase:
         """Make a copy of self."""
         copied = copy.copy(self)
+        # Property values can be mutable (lists, nested data types). Do not share them with the original,
+        # otherwise writing to a nested member of the copy would silently change the original as well.
+        for _, cprop in self.sorted_container_properties():
+            cprop.copy_instance_data(self, copied)
         if copy_node and self.node is not None:
             copied.node = xml_utils.copy_element(self.node)
         return copied
